@@ -278,6 +278,16 @@ Proof.
     apply (find_none _ _ F) in Hin. unfold step in Hin. simpl in Hin.
     now rewrite (proj2 (slot_eqb_eq _ _) eq_refl) in Hin.
 Qed.
+
+(* end to end for the threaded path: under EVERY interleaving slot (j,i) ends up holding K j i for j<Nu, i<Nv
+   and every other slot of the store is left as it was *)
+Theorem threaded_fills k Nu Nv tr (s : store V) j i : 0 < k ->
+  interleaving (worker_steps K k Nu Nv) tr ->
+  run tr s (j, i) = if (j <? Nu) && (i <? Nv) then Some (K j i) else s (j, i).
+Proof.
+  intros Hk Hil. rewrite (threaded_equals_serial k Nu Nv tr s Hk Hil). apply serial_fills.
+Qed.
+
 End Sched.
 
 (* ---------- exceptions: threaded assembly raises exactly when serial assembly does ---------- *)
